@@ -321,7 +321,8 @@ Proof.
   destruct (fq_fill ffuel r1) as [r2 fr] eqn:E2.
   destruct (fq_fill_sane_stage _ _ _ _ _ E2 S1) as (S2 & Hq2 & Hi2).
   assert (P2 : Pending s (inc r) (qst r) r2) by (right; split; [congruence|left; split; [congruence|exact S2]]).
-  destruct fr as [n|k|]; try (inversion H; subst; split; [discriminate|exact P2]).
+  destruct fr as [n|k|]; [|inversion H; subst; split; [discriminate|left; reflexivity]
+                          |inversion H; subst; split; [discriminate|exact P2]].
   destruct (fq_search_from s true r2) as [r3 sr] eqn:E3.
   destruct (fq_search_from_sane _ _ _ _ _ E3 S2) as (Np3 & Hb3 & Hsr).
   destruct sr as [|s'|e|x].
@@ -545,7 +546,8 @@ Proof.
   destruct (fq_fill_sane_stage _ _ _ _ _ E1 S0) as (S1 & Hq1 & Hi1).
   assert (Sane1 : FqSane r1).
   { unfold FqSane. rewrite Hq1, Hi1. unfold r0. fq_simpl. exact S1. }
-  destruct fr; inversion H; subst; split; auto; discriminate.
+  destruct fr; inversion H; subst; split; auto; try discriminate.
+  unfold FqSane. fq_simpl. exact I.
 Qed.
 
 Lemma fq_set_policy_sane r p : FqSane r -> FqSane (fq_set_policy r p).
